@@ -45,6 +45,8 @@ def tasks(tier):
         ts.append(dict(kind='step', K=2, states=list(st), lazy=(sum(st) % 2 == 0), nkinds=5))
     if tier == 'thorough':
         for st in itertools.product(range(4), repeat=3):
+            if sum(st) % 3 and len(set(st)) > 1:
+                continue                # a third of the 64 pre-state combinations (each costs ~50 k paths)
             ts.append(dict(kind='step', K=3, states=list(st), lazy=(sum(st) % 2 == 1), nkinds=4))      # without the type change
     return ts
 
